@@ -19,7 +19,7 @@ ID = 'C02'
 
 MANIFEST = dict(
     technique='explicit-state enumeration of the CTC matrix input tree x beam width x selector; real decoder vs brute-force CTC sum and a reference prefix beam search that explores every tie resolution',
-    text='Bounded exhaustive: every matrix with T <= 4 (quick) / 5 (thorough) rows over a 12-row alphabet (C=3; ties, zeros, one-hot rows, entries straddling the pre-selection threshold, all-pruned rows) and T <= 3/4 over 7 rows (C=4), for k in {1,2,3,4,100} and both selectors. Distinctness, the no-over-count bound and exactness are checked against the full alignment sum; the pruned result against a textbook prefix beam search with all boundary-tie resolutions; un-normalised variants must be rejected. Added sub-sweeps: float32 input, one decoder object re-used across lines (and still rejecting un-normalised input), a non-pruning selector returning unsorted indices, lines of 260-520 frames against the forward recursion (validated against enumeration in setup), and the three-symbol matrices embedded in a 33 000-symbol output layer. A third class count (C=5, T<=3/4): frames with more relevant symbols than the beam is wide next to blank-only frames.',
+    text='Bounded exhaustive: every matrix with T <= 4 (quick) / 5 (thorough) rows over a 13-row alphabet (C=3; ties, zeros, one-hot rows, entries straddling the pre-selection threshold, all-pruned rows) and T <= 3/4 over 7 rows (C=4), for k in {1,2,3,4,100} and both selectors. Distinctness, the no-over-count bound and exactness are checked against the full alignment sum; the pruned result against a textbook prefix beam search with all boundary-tie resolutions; un-normalised variants must be rejected. Added sub-sweeps: float32 input, one decoder object re-used across lines (and still rejecting un-normalised input), a non-pruning selector returning unsorted indices, lines of 260-520 frames against the forward recursion (validated against enumeration in setup), and the three-symbol matrices embedded in a 33 000-symbol output layer. A third class count (C=5, T<=3/4): frames with more relevant symbols than the beam is wide next to blank-only frames.',
     note='Real-valued matrices outside the alphabet, T > 5 and C > 5 are not explored; scores compared within 1e-9.',
     ref='3/C02')
 TH = math.exp(-10)   # 4.54e-5: the default pre-selection keeps logits > -10
@@ -409,7 +409,7 @@ def check_case(case, ctx):
 def describe(tier):
     b = BOUNDS[tier]
     return {
-        'rule': 'every matrix with T<=T3 rows over the 12-row alphabet (C=3) and T<=T4 rows over the 7-row alphabet (C=4) and T<=T5 rows over the 6-row alphabet (C=5: more relevant symbols per frame than the beam is wide) '
+        'rule': 'every matrix with T<=T3 rows over the 13-row alphabet (C=3) and T<=T4 rows over the 7-row alphabet (C=4) and T<=T5 rows over the 6-row alphabet (C=5: more relevant symbols per frame than the beam is wide) '
                 'x k in {1,2,3,4,100} x {default, non-pruning} selector; plus 3 un-normalised variants of every row of every '
                 'matrix with T<=2. state = distinct matrix. Non-trivial: (matrix,k,selector) where the reference beam '
                 'actually dropped a finite candidate; counters report joins, all-pruned frames, selector pruning, boundary ties.',
